@@ -540,6 +540,19 @@ def fold_if_statements(stmts):
     return out, changed
 
 
+_CAPTURED = set()          # names read inside nested functions / lambdas of the function being specialised: their definitions stay
+
+
+def captured_names(fnode):
+    out = set()
+    for n in ast.walk(fnode):
+        if isinstance(n, (ast.FunctionDef, ast.AsyncFunctionDef, ast.Lambda)) and n is not fnode:
+            for x in ast.walk(n):
+                if isinstance(x, ast.Name):
+                    out.add(x.id)
+    return out
+
+
 def propagate_constant_locals(fnode):
     """a local bound exactly once to a constant (str / int / bool / None) is replaced by the constant where it is read"""
     counts = {}
@@ -563,7 +576,7 @@ def propagate_constant_locals(fnode):
             vals[n.targets[0].id] = n
     a = fnode.args
     params = {p.arg for p in a.posonlyargs + a.args + a.kwonlyargs}
-    use = {k: v for k, v in vals.items() if counts.get(k) == 1 and k not in params and v.value.value is not None}
+    use = {k: v for k, v in vals.items() if counts.get(k) == 1 and k not in params and v.value.value is not None and k not in _CAPTURED}
     if not use:
         return False
     # the definition must come first in source order (straight-line splices guarantee it; loops could read it earlier)
@@ -815,7 +828,7 @@ def propagate_callable_locals(fnode):
             par[c] = n
     use = {}
     for nm, d in defs.items():
-        if counts.get(nm) != 1:
+        if counts.get(nm) != 1 or nm in _CAPTURED:
             continue
         loads = [x for x in walk_own(fnode) if isinstance(x, ast.Name) and x.id == nm and isinstance(x.ctx, ast.Load)]
         if loads and all(isinstance(par.get(x), ast.Call) and par[x].func is x for x in loads) and (len(loads) == 1 or _cheap(d.value)):
@@ -880,7 +893,7 @@ def propagate_slice_locals(fnode):
                     covered += sum(1 for x in ast.walk(stmts[j]) if isinstance(x, ast.Name) and x.id == nm and isinstance(x.ctx, ast.Load))
                     j += 1
                 stores = sum(1 for x in walk_own(fnode) if isinstance(x, ast.Name) and x.id == nm and isinstance(x.ctx, ast.Store))
-                if uses and covered == len(uses) and stores == 1:
+                if uses and covered == len(uses) and stores == 1 and nm not in _CAPTURED:
                     class S(ast.NodeTransformer):
                         def visit_Subscript(self, n):
                             self.generic_visit(n)
@@ -932,7 +945,7 @@ def propagate_tuple_locals(fnode):
             par[c] = n
     use = {}
     for nm, d in defs.items():
-        if counts.get(nm) != 1:
+        if counts.get(nm) != 1 or nm in _CAPTURED:
             continue
         ok = True
         n_el = len(d.value.elts)
@@ -1746,6 +1759,8 @@ def scalarise_display_locals(f, counter):
             par[c] = n
 
     def only_iterated(name):
+        if name in _CAPTURED:
+            return False
         for x in walk_own(f.node):
             if isinstance(x, ast.Name) and x.id == name and isinstance(x.ctx, ast.Load):
                 p = par.get(x)
@@ -2197,7 +2212,7 @@ def expand_constant_dicts(fnode):
     if aliases:
         dict_locals = {n.targets[0].id for n in walk_own(fnode) if isinstance(n, ast.Assign) and len(n.targets) == 1 and isinstance(n.targets[0], ast.Name)
                        and (isinstance(n.value, ast.Dict) or (isinstance(n.value, ast.Call) and U(n.value.func) == "dict"))}
-        use = {a: (src, st) for a, (src, st) in aliases.items() if src in dict_locals}
+        use = {a: (src, st) for a, (src, st) in aliases.items() if src in dict_locals and a not in _CAPTURED}
         if use:
             class AL(ast.NodeTransformer):
                 def visit_Name(self, n):
@@ -2232,7 +2247,7 @@ def expand_constant_dicts(fnode):
             if lit or dc:
                 cands.setdefault(n.targets[0].id, []).append(n)
     for d, defs in cands.items():
-        if len(defs) != 1:
+        if len(defs) != 1 or d in _CAPTURED:
             continue
         init = defs[0]
         keys = [k.value for k in init.value.keys] if isinstance(init.value, ast.Dict) else [k.arg for k in init.value.keywords]
@@ -2488,6 +2503,8 @@ def forward_none_tests(stmts, known=None):
             nm = st.targets[0].id
             if isinstance(st.value, ast.Constant) and st.value.value is None:
                 known[nm] = True
+            elif nm in _ITEM_ACCUMULATORS:
+                known[nm] = False
             elif isinstance(st.value, (ast.BinOp, ast.Call, ast.List, ast.Tuple, ast.Dict, ast.ListComp, ast.Subscript, ast.Attribute, ast.Compare)) or \
                     (isinstance(st.value, ast.Constant) and st.value.value is not None):
                 # arithmetic, displays and constants are not None; calls / subscripts / attributes may be: only trust the safe ones
@@ -2645,6 +2662,10 @@ def setdefault_groups(fnode):
 
 
 # --------------------------------------------------------------------------------------------------- functools.reduce
+_ITEM_ACCUMULATORS = set()     # accumulators introduced for reduce(F, iterator): seeded with None, then only ever bound to items / F results,
+                                # which assumption A-nonnull-unique takes to be not None
+
+
 def unfold_reduce(stmts, counter):
     """x = functools.reduce(F, IT, INIT) / return functools.reduce(..)   ->   acc = INIT; for e in IT: acc = F(acc, e); x = acc
     without INIT (IT a plain name / path, taken to be a sequence):  acc = IT[0]; for e in IT[1:]: ..."""
@@ -2684,6 +2705,27 @@ def unfold_reduce(stmts, counter):
         if isinstance(v, ast.Call) and U(v.func) in ("functools.reduce", "reduce") and 2 <= len(v.args) <= 3 and not v.keywords:
             F, IT = v.args[0], v.args[1]
             init = v.args[2] if len(v.args) == 3 else None
+            if init is None and isinstance(IT, (ast.Call, ast.GeneratorExp)) and not any(isinstance(x, (ast.Await, ast.Yield, ast.YieldFrom)) for x in ast.walk(IT)):
+                # an iterator consumed once (a generator call, a generator expression): the first item seeds the accumulator.
+                # (Assumption A-nonnull-unique: the items are not None; an empty iterator gives None here where reduce raises TypeError.)
+                counter[0] += 1
+                acc, el = f"_acc{counter[0]}", f"_el{counter[0]}"
+                _ITEM_ACCUMULATORS.add(acc)
+                call = ast.Call(func=F, args=[ast.Name(id=acc, ctx=ast.Load()), ast.Name(id=el, ctx=ast.Load())], keywords=[])
+                test = ast.Compare(left=ast.Name(id=acc, ctx=ast.Load()), ops=[ast.Is()], comparators=[ast.Constant(value=None)])
+                new = [ast.Assign(targets=[ast.Name(id=acc, ctx=ast.Store())], value=ast.Constant(value=None), lineno=st.lineno, col_offset=0),
+                       ast.For(target=ast.Name(id=el, ctx=ast.Store()), iter=IT, orelse=[], lineno=st.lineno, col_offset=0,
+                               body=[ast.If(test=test, body=[ast.Assign(targets=[ast.Name(id=acc, ctx=ast.Store())], value=ast.Name(id=el, ctx=ast.Load()), lineno=st.lineno, col_offset=0)],
+                                            orelse=[ast.Assign(targets=[ast.Name(id=acc, ctx=ast.Store())], value=call, lineno=st.lineno, col_offset=0)], lineno=st.lineno, col_offset=0)])]
+                if isinstance(st, ast.Return):
+                    new.append(ast.Return(value=ast.Name(id=acc, ctx=ast.Load())))
+                else:
+                    new.append(ast.Assign(targets=st.targets, value=ast.Name(id=acc, ctx=ast.Load()), lineno=st.lineno, col_offset=0))
+                for x in new:
+                    ast.fix_missing_locations(x)
+                out += new
+                changed = True
+                continue
             if init is None and not _cheap(IT):
                 out.append(st)
                 continue
@@ -3275,11 +3317,13 @@ def _replace_sets(iff, v, exc):
 def drop_unused_closures(fnode):
     """nested function definitions that nothing refers to any more (all their calls were replaced by their value)"""
     used = {x.id for x in ast.walk(fnode) if isinstance(x, ast.Name)}
+    dropped = [False]
 
     def strip(stmts):
         out = []
         for st in stmts:
             if isinstance(st, ast.FunctionDef) and st.name not in used and not st.decorator_list:
+                dropped[0] = True
                 continue
             for fld in ("body", "orelse", "finalbody"):
                 sub = getattr(st, fld, None)
@@ -3289,6 +3333,7 @@ def drop_unused_closures(fnode):
             out.append(st)
         return out
     fnode.body = strip(fnode.body)
+    return dropped[0]
 
 
 def _calls_new_helper(repo, f):
@@ -3352,6 +3397,8 @@ def partial_evaluate(repo, max_rounds=8):
         steps = []
         for _ in range(max_rounds):
             ch = False
+            _CAPTURED.clear()
+            _CAPTURED.update(captured_names(f.node))
             body, c0 = unfold_reduce(f.node.body, counter)
             f.node.body = body
             if c0:
@@ -3397,6 +3444,9 @@ def partial_evaluate(repo, max_rounds=8):
             if propagate_constant_locals(f.node):
                 ch = True
                 steps.append("constants")
+            if (steps or q in getattr(repo, "inlined", {})) and drop_unused_closures(f.node):
+                ch = True
+                steps.append("unused-closures")
             if (steps or q in getattr(repo, "inlined", {})) and propagate_readonly_displays(repo, f):
                 ch = True
                 steps.append("readonly-displays")
